@@ -157,7 +157,10 @@ def walk_system(ctx, objs):
                 check_tree(ctx, name, attr, val, seen)
 
 
-def h_tree(ctx, skeleton, n, drivers, args=None):
+def h_tree(ctx, skeleton, n, drivers, args=None, alt_units=None, values=None):
+    """alt_units=k: every input that has another spelling is given in its k-th alternative unit (operands of one
+    operation then come in different units of one dimension); values: concrete overrides (e.g. a short storage duration,
+    so that expiries really happen within the modelled period)"""
     spec = M.SKELETONS[skeleton](n, **(args or {}))
     sym = traffic_syms(spec)
     items = []
@@ -175,7 +178,19 @@ def h_tree(ctx, skeleton, n, drivers, args=None):
                   ("networks", "bandwidth_energy_intensity", 0, 10, (0.01, 1)),
                   ("steps", "user_time_spent", 0, 119, (1, 100))]
     sym.update(sym_slots(spec, items))
-    env = M.Env(ctx, symbolic=sym)
+    env = M.Env(ctx, symbolic={k: v for k, v in sym.items() if k not in (values or {})}, values=dict(values or {}))
+    if alt_units is not None:
+        from harness.c10 import slots_of, ALT
+        vals, units = {}, {}
+        for (slot, param, default, un) in slots_of(spec):
+            # only inputs that are symbolic here: a concrete default re-expressed in another unit goes through float
+            # conversions whose rounding the real-number reading would take at face value
+            if ALT.get(un) and slot in sym:
+                alt_unit, factor = ALT[un][alt_units % len(ALT[un])]
+                v0 = env.get(slot, default)
+                vals[slot] = v0 * factor if isinstance(v0, Sym) else float(v0) * float(factor)
+                units[slot] = alt_unit
+        env = env.child(values=vals, units=units)
     objs = M.build(spec, env)
     V.observe_system(ctx, objs)
     walk_system(ctx, objs)
@@ -189,10 +204,19 @@ def plan(tier, seed):
          ("tree", dict(skeleton="T3", n=2, drivers=["job"])),
          ("tree", dict(skeleton="T4", n=2, drivers=["usage"])),
          ("tree", dict(skeleton="T5", n=2, drivers=["infra"])),
-         ("tree", dict(skeleton="T7", n=2, drivers=["job"]))]
+         ("tree", dict(skeleton="T7", n=2, drivers=["job"])),
+         ("tree", dict(skeleton="T1", n=2, drivers=["infra", "job"], alt_units=0)),
+         ("tree", dict(skeleton="T5", n=2, drivers=["infra"], alt_units=1)),
+         ("tree", dict(skeleton="T1", n=2, drivers=["usage"], alt_units=1)),
+         ("tree", dict(skeleton="T1", n=3, drivers=["job"], values={"st.data_storage_duration": 1.5 / 8766})),
+         ("tree", dict(skeleton="T7", n=2, drivers=["infra"], values={"st.data_storage_duration": 1 / 8766}, args={"offset_hours": 1}))]
     if tier == "thorough":
         for sk in ("T1", "T2", "T3", "T4", "T5", "T7"):
             for d in (["job"], ["infra"], ["usage"]):
                 p.append(("tree", dict(skeleton=sk, n=3, drivers=d)))
         p.append(("tree", dict(skeleton="T5", n=2, drivers=["infra"], args={"type1": "on-premise", "type2": "autoscaling", "fixed1": 4})))
+        for sk in ("T1", "T3", "T5", "T7"):
+            for k in (0, 1, 2):
+                p.append(("tree", dict(skeleton=sk, n=2, drivers=[["job", "infra"], ["infra", "usage"], ["job", "usage"]][k], alt_units=k)))
+            p.append(("tree", dict(skeleton=sk, n=3, drivers=["usage"], values={"st.data_storage_duration": 2 / 8766})))
     return p
